@@ -918,12 +918,16 @@ func TestVerifStateBuffer(t *testing.T) {
 			acts = append(acts, act)
 			cur, step = &act, si
 			var follow []sbAct
-			if act.Name == "Update" && r.Intn(5) != 0 {
-				follow = append(follow, sbAct{Name: "Commit"}) // P5: Commit directly follows Update
+			if act.Name == "Update" { // P5: Update is directly followed by Commit or by giving up the block state
+				if r.Intn(8) != 0 {
+					follow = append(follow, sbAct{Name: "Commit"})
+				} else {
+					follow = append(follow, sbAct{Name: "Reopen"})
+				}
 			}
-			for _, a := range append([]sbAct{act}, follow...) {
+			for fi, a := range append([]sbAct{act}, follow...) {
 				a := a
-				if a.Name == "Commit" {
+				if fi > 0 {
 					acts = append(acts, a)
 					cur = &a
 				}
